@@ -89,6 +89,23 @@ func c03Enumerate(tier string, seed int64, emit func(string, any)) {
 			}
 		}
 	}
+	// long valid programs (more instructions than any initial buffer size: 300 / 700 / 1500 terms or statements) in front of
+	// tails that emit code before they break off
+	for _, n := range []int{300, 700, 1500} {
+		for _, p := range []string{"1" + strings.Repeat("+1", n), "0" + strings.Repeat("; 0", n) + "; 7", "[1" + strings.Repeat(",1", n/4) + "].len()", "&lc = 1" + strings.Repeat("+1", n) + "; lc", "func lf(){ 1" + strings.Repeat("+1", n) + " }; lf()"} {
+			for _, t := range []string{" + 'abc", " + [1,", "; 'abc", " ||(", " && (1+", " ? 1 : 'x", ", 1 ? 'a", "\n`x{1", " + xf(", " == {'a':", " + `{&a=3+4", "; func g(){"} {
+				emit("long program+tail", c03Case{Src: p + t, Cfg: on})
+			}
+		}
+	}
+	// identifiers and comments that end in every possible final UTF-8 byte (0x80..0xBF), alone and in front of a tail
+	for k := 0; k < 64; k++ {
+		id := "y" + string(rune(0x4E00+k))
+		for _, t := range []string{"", " ", " (", " +", "\n", " // c" + string(rune(0x4E00+k))} {
+			emit("identifier final byte", c03Case{Src: id + " = 7; 1 + " + id + t, Cfg: on})
+			emit("identifier final byte", c03Case{Src: id + t, Cfg: on})
+		}
+	}
 	alpha := gen.TokensCore
 	gen.StringsUpTo(alpha, 3, func(s string) {
 		emit("tokens<=3", c03Case{Src: s, Cfg: on})
